@@ -480,7 +480,7 @@ func execute(scratch string, sc scenario, prefix []int, rep *Report, sr *Scenari
 		rep.Infra = "scenario prelude: " + err.Error()
 		return nil
 	}
-	S := &sched.Sched{FreeGrace: 5 * time.Second}
+	S := &sched.Sched{}
 	installHooks(S)
 	w.yield = hclog.VerifYield
 	var panicked interface{}
